@@ -66,7 +66,8 @@ def py_fletcher32(x):
 
 
 def py_lzf_decode(data):
-    """LZF decoder from the format description (liblzf): literal runs and back references."""
+    """LZF decoder from the stream format (liblzf lzf_d.c): literal runs 000LLLLL; back references
+    LLLooooo oooooooo (length 3..8) and 111ooooo LLLLLLLL oooooooo (length 9..264, length byte first)."""
     out = bytearray()
     i, n = 0, len(data)
     while i < n:
@@ -80,25 +81,18 @@ def py_lzf_decode(data):
             i += run
         else:
             ln = c >> 5
-            if i >= n:
-                return None
-            if ln == 7:
-                if i + 1 >= n + 0 and i >= n:
-                    return None
-                # long form: next byte is the low offset byte, then the extra length
-                pass
-            off = ((c & 0x1F) << 8) | data[i]
-            i += 1
             if ln == 7:
                 if i >= n:
                     return None
                 ln += data[i]
                 i += 1
-            ln += 2
-            ref = len(out) - off - 1
+            if i >= n:
+                return None
+            ref = len(out) - ((c & 0x1F) << 8) - data[i] - 1
+            i += 1
             if ref < 0:
                 return None
-            for _ in range(ln):
+            for _ in range(ln + 2):
                 out.append(out[ref])
                 ref += 1
     return bytes(out)
@@ -529,7 +523,7 @@ def run(ctx):
                     if rng.random() < 0.3 and len(lit) > 40:
                         off = rng.randrange(1, 40); ln = rng.randrange(3, 270)
                         lit += (bytes([((ln - 2) << 5) | ((off - 1) >> 8), (off - 1) & 0xFF]) if ln <= 8
-                                else bytes([0xE0 | ((off - 1) >> 8), (off - 1) & 0xFF, min(ln - 9, 255)]))
+                                else bytes([0xE0 | ((off - 1) >> 8), min(ln - 9, 255), (off - 1) & 0xFF]))
                 stored = bytes(lit)
                 if m < 0.6:
                     stored = stored[:rng.randrange(len(stored) + 1)]
@@ -612,6 +606,9 @@ def run(ctx):
             m = rng.randbytes(rng.randrange(0, 40))
             if m and rng.random() < 0.7:
                 m = bytes([rng.choice([1, 2]), rng.randrange(0, 4)]) + m[2:]
+        if kind < 0.3 and len(m) >= 12 and rng.random() < 0.15:
+            # name length near 65535: the padded length must not wrap around 16 bits
+            b2 = bytearray(m); b2[10:12] = struct.pack("<H", rng.choice([0xFFFF, 0xFFF9, 0xFFF8, 0xFFF1])); m = bytes(b2)
         mm = rng.random()
         if mm < 0.25:
             m = m[:rng.randrange(len(m) + 1)]
@@ -636,7 +633,8 @@ def run(ctx):
     # foreign descriptions (optional flag, LZF size hint in cd[2], unknown ids) x chunk: reader_apply correspondence
     rd_cases, coq_read = [], []
     nfree = [(2, b"shuffle", 0, [4]), (2, b"", 1, [8]), (2, b"shuffle", 1, [3]), (3, b"fletcher32", 0, []), (3, b"", 1, []),
-             (32000, b"lzf", 0, [4, 0, 0]), (32000, b"lzf", 1, [4, 0, 64]), (32000, b"lzf", 0, [4, 0, 16]), (999, b"x", 1, []), (999, b"", 0, [1])]
+             (32000, b"lzf", 0, [4, 0, 0]), (32000, b"lzf", 1, [4, 0, 64]), (32000, b"lzf", 0, [4, 0, 16]), (999, b"x", 1, []), (999, b"", 0, [1]),
+             (32000, b"lzf", 0, [4, 0, (1 << 30) + 1]), (32000, b"lzf", 1, [4, 0, 0xFFFFFFFF])]   # size hint above utils.MaxChunkSize: error
     for _ in range(150 if quick else 3000):
         fl = [rng.choice(nfree) for _ in range(rng.randrange(1, 4))]
         m = v1_message(fl) if rng.random() < 0.6 else v2_message([f for f in fl if f[0] < 256] or [nfree[0]])
@@ -748,18 +746,18 @@ def run(ctx):
     evaluations += corruptions
     # the listed finding is re-confirmed on its committed witness every run
     wit = vlib.run_harness(H, "c08corrupt", [{"data": "00" * 40, "filters": [{"t": "fletcher32"}, {"t": "lzf"}], "xors": [], "sets": [29],
-                                              "positions": [5], "multi": []}])[0]
+                                              "positions": [4], "multi": []}])[0]
     wit_repro = bool(wit.get("misses")) and not wit["misses"][0]["writer_err"] and not wit["misses"][0]["reader_err"] and not wit["misses"][0]["reader_eq"]
     kf = [k for k in vlib.known_findings("C08") if k["id"] == "C08-fletcher-not-outermost-lzf"]
     if wit_repro or inner_lzf_misses:
         if kf:
             known.append("Fletcher-32 not outermost with an LZF stage after it: an altered stored byte is decoded to different data without an error "
-                         "(witness [fletcher32,lzf], 40 zero bytes, stored byte 5 33->29 reproduced=%s; %d further generated alterations) (%s)"
+                         "(witness [fletcher32,lzf], 40 zero bytes, stored length byte 4 33->29 reproduced=%s; %d further generated alterations) (%s)"
                          % (wit_repro, len(inner_lzf_misses), kf[0]["id"]))
         else:
             violation("an altered Fletcher-32-protected chunk decodes to different data without an error (Fletcher-32 not outermost, LZF after it)",
                       failing_input=(inner_lzf_misses[0] if inner_lzf_misses else dict(payload_hex="00" * 40, filters=[{"t": "fletcher32"}, {"t": "lzf"}],
-                                                                                           stored=wit.get("enc"), positions=[5], values=[29])),
+                                                                                           stored=wit.get("enc"), positions=[4], values=[29])),
                       impl=wit.get("misses"))
     elif kf:
         known_stale = "finding %s is listed but did not reproduce" % kf[0]["id"]
@@ -851,7 +849,8 @@ def run(ctx):
     evaluations += flips
     # chunks written by the reference C library must verify (guards the checksum definition)
     ref_checked = 0
-    refs = [("testdata/hdf5_official/tfilters.h5", "/fletcher32", 200)]
+    refs = [("testdata/hdf5_official/tfilters.h5", "/fletcher32", 200),
+            ("testdata/hdf5_official/h5ex_d_lzf.h5", "/DS1", 2048)]      # LZF stream written by the reference filter (long back references)
     for rel, ds, n in refs:
         p = os.path.join(vlib.REPO, rel)
         if not os.path.exists(p):
@@ -862,7 +861,7 @@ def run(ctx):
             continue
         ref_checked += 1
         if d.get("err") or d.get("n") != n:
-            violation("Fletcher-32 chunks written by the reference library no longer verify/read: %s" % d.get("err"),
+            violation("filtered chunks written by the reference library no longer verify/read: %s" % d.get("err"),
                       failing_input=dict(file=rel, dataset=ds), impl=d)
 
     # ------------------------------------------------------------------ Coq: model vs implementation
